@@ -235,11 +235,11 @@ End WinEmit.
 (* ================================================================ the FSEvents emitter
    Everything about FSEvents ([fsevents_kernel], coalescing) is modelled from the documentation and the
    comments in fsevents.py; it cannot be validated in this sandbox. *)
-Require WD.Model.FsEvents WD.Proofs.FsEventsProofs WD.Proofs.FsContractProofs WD.Proofs.FsReplayProofs WD.Proofs.FsBatchProofs.
+Require WD.Model.FsEvents WD.Proofs.FsEventsProofs WD.Proofs.FsContractProofs WD.Proofs.FsReplayProofs WD.Proofs.FsBatchProofs WD.Proofs.FsCutProofs.
 
 Module Fse.
 Import WD.Base.BStr WD.Model.SubEvents WD.Model.PlatFs WD.Model.FsEvents WD.Proofs.FsEventsProofs.
-Import WD.Proofs.WinEmitterProofs WD.Proofs.WinReplayProofs WD.Proofs.FsContractProofs WD.Proofs.FsReplayProofs WD.Proofs.FsBatchProofs.
+Import WD.Proofs.WinEmitterProofs WD.Proofs.WinReplayProofs WD.Proofs.FsContractProofs WD.Proofs.FsReplayProofs WD.Proofs.FsBatchProofs WD.Proofs.FsCutProofs.
 
 (* Non-recursive watch: whatever the native batch (any flags, any paths, any coalescing, any cut), the
    _fs_view and the state of the file system, every queued event passed _is_recursive_event ... *)
@@ -339,6 +339,45 @@ Theorem C20_fsevents_inode_reuse_refuted :
     view_of (fold_left apply_op ops []) = [(g, KFile)].
 Proof. exact fse_inode_reuse_refuted. Qed.
 Print Assumptions C20_fsevents_inode_reuse_refuted.
+
+(* A batch cut inside one operation: only a rename has two events.  Delivered by two calls of
+   queue_events (oracles of the tree after the rename), the look-ahead finds no partner: the first call
+   queues deleted(old) + parent modified, the second created(new) + parent modified + one synthetic
+   created event per descendant - no moved event (the "one moved event" clause of the contract is
+   lost under such a cut) ... *)
+Theorem C20_fsevents_cut_events_partial :
+  forall stat_ino walk sub recursive root view (before : fs) s d,
+  root <> [] -> last_is_sep root = false ->
+  (forall p, walk (abspath root p) = sub p) -> (forall p, wf_tree (sub p) = true) ->
+  closed_fs before -> op_names_ok (ORename s d) = true -> op_ok before (ORename s d) = true ->
+  let after := apply_op before (ORename s d) in
+  (forall p, stat_ino (abspath root p) = match lookup after p with Some e => Some (e_ino e) | None => None end) ->
+  forall e, lookup before s = Some e ->
+  let natives := map (frender root) (fsevents_kernel before (ORename s d)) in
+  exists v1 v2,
+    queue_events stat_ino walk recursive root view (firstn 1 natives)
+    = Some (filter (keep recursive root) (map (render root) (ADeleted (e_kind e) s :: pmod s)), v1, false) /\
+    queue_events stat_ino walk recursive root v1 (skipn 1 natives)
+    = Some (filter (keep recursive root)
+              (map (render root) (ACreated (e_kind e) d false :: pmod d ++
+                                  map (fun x => ACreated (fst x) (d ++ snd x) true) (desc [] (sub d)))), v2, false).
+Proof. exact fse_rename_cut_events. Qed.
+Print Assumptions C20_fsevents_cut_events_partial.
+
+(* ... but the replay law survives the cut: that stream still reproduces the tree. *)
+Theorem C20_fsevents_cut_replay_partial :
+  forall (sub : path -> tree) (before : fs) s d e,
+  wf_fs before -> op_names_ok (ORename s d) = true -> op_ok before (ORename s d) = true ->
+  lookup before s = Some e ->
+  let after := apply_op before (ORename s d) in
+  covers sub after (ORename s d) ->
+  Permutation (replay (view_of before)
+                 ((ADeleted (e_kind e) s :: pmod s) ++
+                  (ACreated (e_kind e) d false :: pmod d ++
+                   map (fun x => ACreated (fst x) (d ++ snd x) true) (desc [] (sub d)))))
+              (view_of after).
+Proof. exact fse_rename_cut_replay. Qed.
+Print Assumptions C20_fsevents_cut_replay_partial.
 
 (* Several operations delivered as ONE batch, arbitrarily many, no coalescing (recursive watch).
    The law holds exactly under [batch_ok] (FsBatchProofs.v), per operation of the batch:
